@@ -158,3 +158,65 @@ B('C04', 'check only for three or more', (D, "        if len(transitions) > 1:\n
 B('C04', 'conflict ignores targets', (D, "                    if (transition.target and (transition.target not in [\n                            last_before_lca] + self._statechart.descendants_for(last_before_lca))):", "                    if (transition.target and transition.internal and (transition.target not in [\n                            last_before_lca] + self._statechart.descendants_for(last_before_lca))):"))
 B('C04', 'guard evaluation raises events', (PY, "        return self._evaluate_code(\n            getattr(transition, 'guard', None),\n            additional_context=additional_context)", "        self._interpreter._sent_events.append(event)\n        return self._evaluate_code(\n            getattr(transition, 'guard', None),\n            additional_context=additional_context)"))
 T('C04', 'distinct-sources conjunct', (D, "                if not isinstance(lca_state, OrthogonalState):\n                    raise NonDeterminismError(", "                if t1.source != t2.source and not isinstance(lca_state, OrthogonalState):\n                    raise NonDeterminismError("))
+
+# ---------------------------------------------------------------- C06
+B('C06', 'deep/shallow scopes swapped',
+  (D, "                        active = active_configuration.intersection(\n                            self._statechart.descendants_for(state.name))", "                        active = active_configuration.intersection(\n                            self._statechart.children_for(state.name))"),
+  (D, "                        active = active_configuration.intersection(\n                            self.statechart.children_for(state.name))", "                        active = active_configuration.intersection(\n                            self.statechart.descendants_for(state.name))"))
+B('C06', 'live configuration instead of the snapshot', (D, "active_configuration = set(self._configuration)  # Copy", "active_configuration = self._configuration"))
+B('C06', 'default fallback dropped', (D, "self._memory.get(leaf.name, [leaf.memory])", "self._memory.get(leaf.name, [])"))
+B('C06', 'restoration deepest first', (D, "states_to_enter.sort(key=lambda x: (self._statechart.depth_for(x), x))", "states_to_enter.sort(key=lambda x: (-self._statechart.depth_for(x), x))"))
+B('C06', 'history state not exited', (D, "return MicroStep(entered_states=states_to_enter, exited_states=[leaf.name])", "return MicroStep(entered_states=states_to_enter, exited_states=[])"))
+B('C06', 'first-write-wins memory', (D, "                        assert len(active) >= 1\n                        self._memory[child.name] = list(active)", "                        assert len(active) >= 1\n                        self._memory.setdefault(child.name, list(active))"))
+B('C06', 'save only when the exited state is the transition source', (D, "            if isinstance(state, CompoundState):\n                # Look for an HistoryStateMixin", "            if isinstance(state, CompoundState) and step.transition and step.transition.source == state.name:\n                # Look for an HistoryStateMixin"))
+B('C06', 'snapshot taken inside the exit loop', (D, "        active_configuration = set(self._configuration)  # Copy\n", ""), (D, "            # Deal with history\n            if isinstance(state, CompoundState):", "            active_configuration = set(self._configuration)\n            if isinstance(state, CompoundState):"))
+B('C06', 'memory keyed by the parent', (D, "                        assert len(active) == 1\n                        self._memory[child.name] = list(active)", "                        assert len(active) == 1\n                        self._memory[state.name] = list(active)"))
+B('C06', 'memory written at entry', (D, "            # Update configuration\n            self._configuration.add(state.name)", "            self._memory.pop(state.name, None)\n            self._configuration.add(state.name)"))
+B('C06', 'only shallow history restored', (D, "if isinstance(leaf, (ShallowHistoryState, DeepHistoryState)):", "if isinstance(leaf, ShallowHistoryState):"))
+B('C06', 'shallow history saves only once', (D, "                        assert len(active) == 1\n                        self._memory[child.name] = list(active)", "                        assert len(active) == 1\n                        if child.name not in self._memory:\n                            self._memory[child.name] = list(active)"))
+T('C06', 'frozenset snapshot', (D, "active_configuration = set(self._configuration)  # Copy", "active_configuration = frozenset(self._configuration)"))
+T('C06', 'renamed snapshot', (D, "active_configuration = set(self._configuration)  # Copy", "snapshot = active_configuration = set(self._configuration)"))
+
+# ---------------------------------------------------------------- C08
+B('C08', 'state postconditions before exit code',
+  (D, "            # Execute exit action\n            sent_events.extend(self._evaluator.execute_on_exit(state))\n", "            self._evaluate_contract_conditions(state, 'postconditions', step)\n            sent_events.extend(self._evaluator.execute_on_exit(state))\n"),
+  (D, "            # Postconditions\n            self._evaluate_contract_conditions(state, 'postconditions', step)\n", ""))
+B('C08', 'transition preconditions after the action',
+  (D, "            self._evaluate_contract_conditions(step.transition, 'preconditions', step)\n            self._evaluate_contract_conditions(step.transition, 'invariants', step)\n\n            sent_events.extend(self._evaluator.execute_action(step.transition, step.event))\n",
+      "            self._evaluate_contract_conditions(step.transition, 'invariants', step)\n\n            sent_events.extend(self._evaluator.execute_action(step.transition, step.event))\n            self._evaluate_contract_conditions(step.transition, 'preconditions', step)\n"))
+B('C08', 'second transition invariant check dropped', (D, "            self._evaluate_contract_conditions(step.transition, 'postconditions', step)\n            self._evaluate_contract_conditions(step.transition, 'invariants', step)\n", "            self._evaluate_contract_conditions(step.transition, 'postconditions', step)\n"))
+B('C08', 'state preconditions after entry code',
+  (D, "            # Preconditions\n            self._evaluate_contract_conditions(state, 'preconditions', step)\n\n            # Execute entry action\n            sent_events.extend(self._evaluator.execute_on_entry(state))\n",
+      "            sent_events.extend(self._evaluator.execute_on_entry(state))\n            self._evaluate_contract_conditions(state, 'preconditions', step)\n"))
+B('C08', 'end-of-step invariants only for non-empty steps',
+  (D, "        # Check state invariants\n        configuration = self.configuration  # Use self.configuration to benefit from the sorting\n        for name in configuration:\n            state = self._statechart.state_for(name)\n            self._evaluate_contract_conditions(state, 'invariants', macro_step)\n",
+      "        if macro_step is not None:\n            for name in self.configuration:\n                state = self._statechart.state_for(name)\n                self._evaluate_contract_conditions(state, 'invariants', macro_step)\n"))
+B('C08', 'error classes swapped', (D, "{'preconditions': PreconditionError,\n                                                          'postconditions': PostconditionError,", "{'preconditions': PostconditionError,\n                                                          'postconditions': PreconditionError,"))
+B('C08', 'eager evaluation', (PY, "        return filter(\n            lambda c: not self._evaluate_code(c, additional_context=additional_context),\n            getattr(obj, 'invariants', [])\n        )", "        return list(filter(\n            lambda c: not self._evaluate_code(c, additional_context=additional_context),\n            getattr(obj, 'invariants', [])\n        ))"))
+B('C08', 'evaluate_postconditions reads invariants', (PY, "            getattr(obj, 'postconditions', [])\n        )", "            getattr(obj, 'invariants', [])\n        )"))
+B('C08', 'snapshot taken lazily', (PY, "        if len(getattr(obj, 'invariants', [])) > 0 or len(getattr(obj, 'postconditions', [])) > 0:\n            self._memory[self._memory_key(obj)] = FrozenContext(self._context)\n\n        return filter(\n            lambda c: not self._evaluate_code(c, additional_context=additional_context),",
+                                       "        def _snap():\n            self._memory[self._memory_key(obj)] = FrozenContext(self._context)\n            return True\n\n        return filter(\n            lambda c: _snap() and not self._evaluate_code(c, additional_context=additional_context),"))
+B('C08', 'error carries the step as obj', (D, "raise exception_klass(configuration=self.configuration, step=step, obj=obj,", "raise exception_klass(configuration=self.configuration, step=step, obj=step,"))
+B('C08', 'raise only for the last unsatisfied condition', (D, "        for condition in unsatisfied_conditions:\n            raise exception_klass(", "        for condition in list(unsatisfied_conditions)[-1:]:\n            raise exception_klass("))
+B('C08', 'snapshot only for invariants', (PY, "if len(getattr(obj, 'invariants', [])) > 0 or len(getattr(obj, 'postconditions', [])) > 0:", "if len(getattr(obj, 'invariants', [])) > 0:"))
+B('C08', 'snapshot shares the live context', (PY, "self.__frozencontext = {k: copy.copy(v) for k, v in context.items()}", "self.__frozencontext = context"))
+B('C08', 'dummy-side evaluator keeps satisfied conditions', (EV, "        return filter(\n            lambda c: not self._evaluate_code(\n                c, additional_context=event_d), getattr(obj, 'preconditions', [])\n        )", "        return filter(\n            lambda c: self._evaluate_code(\n                c, additional_context=event_d), getattr(obj, 'preconditions', [])\n        )"))
+B('C08', 'contract errors swallowed by execute', (D, "        macro_step = self.execute_once()\n        while macro_step:", "        try:\n            macro_step = self.execute_once()\n        except Exception:\n            macro_step = None\n        while macro_step:"))
+B('C08', 'end-of-step invariants after step ended', (D, "            self._evaluate_contract_conditions(state, 'invariants', macro_step)\n\n        self._raise_event(MetaEvent('step ended'))\n", "            pass\n\n        self._raise_event(MetaEvent('step ended'))\n        for name in configuration:\n            self._evaluate_contract_conditions(self._statechart.state_for(name), 'invariants', macro_step)\n"))
+T('C08', 'generator for filter', (PY, "        return filter(\n            lambda c: not self._evaluate_code(c, additional_context=additional_context),\n            getattr(obj, 'invariants', [])\n        )", "        return (c for c in getattr(obj, 'invariants', []) if not self._evaluate_code(c, additional_context=additional_context))"))
+T('C08', 'iterate self.configuration directly', (D, "        configuration = self.configuration  # Use self.configuration to benefit from the sorting\n        for name in configuration:", "        for name in self.configuration:"))
+
+# ---------------------------------------------------------------- C09
+B('C09', 'gate removed', (D, "        if self._ignore_contract:\n            return\n\n        exception_klass", "        exception_klass"))
+B('C09', 'gate after evaluation', (D, "        if self._ignore_contract:\n            return\n\n        exception_klass", "        exception_klass"),
+  (D, "        for condition in unsatisfied_conditions:\n            raise exception_klass(", "        if self._ignore_contract:\n            return\n        for condition in unsatisfied_conditions:\n            raise exception_klass("))
+B('C09', 'contract path writes an interpreter field', (PY, "        state_name = obj.source if isinstance(obj, Transition) else obj.name\n\n        additional_context = {\n            '__old__': self._memory.get(\n                self._memory_key(obj),\n                None),\n            'after': (\n                lambda seconds: self._interpreter.time - seconds\n                >= self._interpreter._entry_time[state_name]\n            ),\n            'idle': (\n                lambda seconds: self._interpreter.time - seconds\n                >= self._interpreter._idle_time[state_name]\n            ),\n            'received': lambda name: name == getattr(\n                event,\n                'name',\n                None),\n            'sent': lambda name: name in [\n                e.name for e in self._interpreter._sent_events],\n            'event': event,\n        }\n\n        return filter(\n            lambda c: not self._evaluate_code(c, additional_context=additional_context),\n            getattr(obj, 'invariants', [])",
+   "        state_name = obj.source if isinstance(obj, Transition) else obj.name\n        self._interpreter._idle_time[state_name] = self._interpreter.time\n\n        additional_context = {\n            '__old__': self._memory.get(\n                self._memory_key(obj),\n                None),\n            'after': (\n                lambda seconds: self._interpreter.time - seconds\n                >= self._interpreter._entry_time[state_name]\n            ),\n            'idle': (\n                lambda seconds: self._interpreter.time - seconds\n                >= self._interpreter._idle_time[state_name]\n            ),\n            'received': lambda name: name == getattr(\n                event,\n                'name',\n                None),\n            'sent': lambda name: name in [\n                e.name for e in self._interpreter._sent_events],\n            'event': event,\n        }\n\n        return filter(\n            lambda c: not self._evaluate_code(c, additional_context=additional_context),\n            getattr(obj, 'invariants', [])"))
+B('C09', 'direct evaluator call bypassing the gate', (D, "            # Preconditions\n            self._evaluate_contract_conditions(state, 'preconditions', step)\n", "            # Preconditions\n            self._evaluate_contract_conditions(state, 'preconditions', step)\n            list(self._evaluator.evaluate_invariants(state))\n"))
+B('C09', 'conditions compiled in exec mode', (PY, "compile(code, '<string>', 'eval'))", "compile(code, '<string>', 'exec'))"))
+B('C09', 'ignore_contract flipped later', (D, "        self._listeners.remove(listener)", "        self._listeners.remove(listener)\n        self._ignore_contract = False"))
+B('C09', 'contract context exposes setdefault', (PY, "        additional_context = {\n            'received': lambda name: name == getattr(event, 'name', None),\n            'sent': lambda name: name in [e.name for e in self._interpreter._sent_events],\n            'event': event,\n        }", "        additional_context = {\n            'received': lambda name: name == getattr(event, 'name', None),\n            'sent': lambda name: name in [e.name for e in self._interpreter._sent_events],\n            'event': event,\n            'setdefault': self._setdefault,\n        }"))
+B('C09', 'contracts ignored by default', (D, "                 ignore_contract: bool = False) -> None:", "                 ignore_contract: bool = True) -> None:"))
+B('C09', 'gate inverted', (D, "        if self._ignore_contract:\n            return\n\n        exception_klass", "        if not self._ignore_contract:\n            return\n\n        exception_klass"))
+B('C09', 'evaluating a contract records a sent event', (PY, "        if code is None:\n            return True\n", "        if code is None:\n            return True\n        self._interpreter._sent_events.append(None)\n"))
+T('C09', 'gate with explicit None', (D, "        if self._ignore_contract:\n            return\n\n        exception_klass", "        if self._ignore_contract:\n            return None\n\n        exception_klass"))
